@@ -14,6 +14,9 @@ import NeoModel.Proofs.TokensReward
 import NeoModel.Proofs.TokensCoh
 import NeoModel.Proofs.TokensNotary
 import NeoModel.Proofs.TokensVoter
+import NeoModel.Proofs.TokensPersist
+import NeoModel.Proofs.TokensWitness
+import NeoModel.Proofs.TokensChain
 namespace NeoModel.Tokens
 
 /-- What `Inv` says, in the property's words: the NEO supply is exactly 100 000 000 and equals the sum of the
@@ -426,5 +429,107 @@ example :
     ∃ l1 l2, gasOnPersist e l 7 txs = some l1 ∧ notaryOnPersist e l1 [5, 6] txs = some l2 ∧
       l2.gasSupply = 994 ∧ primaryFee e txs = 60 ∧ notaryMint e [5, 6] txs = 30 := by
   refine ⟨_, _, rfl, rfl, ?_, ?_, ?_⟩ <;> decide
+
+/-! ## OnPersist cannot stop the node on a covered block -/
+
+/-- `onpersist_total`: on every ledger satisfying the accounting invariant, GAS.OnPersist and Notary.OnPersist
+complete when the block is covered — what transaction verification and the memory pool are there to guarantee:
+every sender's GAS balance covers the fees of all its transactions of the block (`owedBy`), every payer's notary
+deposit covers the notary-assisted transactions charged to it (`chargedTo`), fees are positive, the network fees cover
+the NotaryAssisted attribute fees, and a transaction sent by the Notary contract names its payer (A2). -/
+theorem onpersist_total (nt : Nat) (e : Env) (l : Ledger) (primary : Nat) (notaries : List Nat) (txs : List TxFee)
+    (hi : Inv nt l) (hfee : 0 ≤ e.attrFee)
+    (hf : ∀ t ∈ txs, 0 < t.sys + t.net)
+    (hA2 : ∀ t ∈ txs, t.sender = e.notary → t.nkeys.isSome = true → t.payer.isSome = true)
+    (hcg : ∀ a, owedBy a txs ≤ at0 id l.gas a)
+    (hcd : ∀ p, chargedTo e.notary p txs ≤ at0 (·.amount) l.deps p)
+    (hprim : 0 ≤ primaryFee e txs) :
+    ∃ l1 l2, gasOnPersist e l primary txs = some l1 ∧ notaryOnPersist e l1 notaries txs = some l2 :=
+  onPersist_isSome e l primary notaries txs hi hfee hf hA2 hcg hcd hprim
+
+-- non-vacuity: account 1 pays two transactions (fees 21 + 32 = 53 of its 60), the second through... a third one is
+-- sent by the Notary contract (90) and charged to the deposit of 4 (fees 9 of 10); one uncovered datoshi stops the node
+example :
+    let e : Env := { notary := 90, neoC := 91, csize := 1, vcount := 1, attrFee := 1 }
+    let l : Ledger := { gas := [(1, 60), (90, 10)], gasSupply := 70, deps := [(4, ⟨10, 7⟩)] }
+    let txs : List TxFee := [⟨1, 1, 20, none, none⟩, ⟨1, 2, 30, some 0, none⟩, ⟨90, 4, 5, some 1, some 4⟩]
+    owedBy 1 txs = 53 ∧ chargedTo 90 4 txs = 9 ∧ primaryFee e txs = 52 ∧
+    (gasOnPersist e l 7 txs).isSome = true ∧
+    ((gasOnPersist e l 7 txs).bind (fun l1 => notaryOnPersist e l1 [5] txs)).isSome = true ∧
+    (gasOnPersist e { l with gas := [(1, 52), (90, 10)] } 7 txs).isSome = false := by decide
+
+/-- `chain_coherent_covered`: from genesis, along every chain of blocks whose bodies are transaction-level operations
+and that are covered (`chainCovered`: at each block's OnPersist the primary index is a validator position, every
+sender's balance and every payer's deposit cover the fees charged to them, fees are positive, the network fees cover
+the notary service fees), the node never stops (no OnPersist / PostPersist panic) and every state between two blocks
+is a boundary state — the committee cache is coherent.  No hypothesis about the outcome of the run is left. -/
+theorem chain_coherent_covered (e : Env) (h : Nat) (gasInit : Int) (l : Ledger) (bs : List Blk)
+    (he : EnvOK e) (hcs : e.csize ≠ 0) (hfee : 0 ≤ e.attrFee)
+    (hn : h ≠ e.notary) (hc : e.neoC ≠ e.notary) (hg : genesis e h gasInit = some l)
+    (htx : ∀ b ∈ bs, b.txOnly) (hA : ∀ k, acctOf e k ≠ e.notary)
+    (hcov : chainCovered (step (initSt e l) .postPersist) bs) :
+    (runChain (step (initSt e l) .postPersist) bs).panicked = false ∧
+    Bnd e (runChain (step (initSt e l) .postPersist) bs) := by
+  have hm0 := inv_init e h gasInit l hn hc hg
+  have hg0 := genesis_gov e h gasInit l he hg
+  have hgm0 : GMInv (initSt e l) := ⟨he, hg0, hg0⟩
+  have hp0 : (step (initSt e l) .postPersist).panicked = false := by
+    rw [postPersist_no_panic (initSt e l) hm0 hgm0 hcs hA]; rfl
+  have hm1 := step_inv _ .postPersist hm0
+  have hgm1 := step_gov _ .postPersist hm0 hgm0
+  have hcfg1 := step_cfg e (initSt e l) .postPersist ⟨rfl, rfl, rfl, rfl, rfl⟩
+  have hnp : (runChain (step (initSt e l) .postPersist) bs).panicked = false := by
+    rw [chain_no_panic e _ bs hm1 hgm1 hcfg1 hcs hA (by rw [step_attrFee]; exact hfee) htx hcov]; exact hp0
+  exact ⟨hnp, chain_coherent e h gasInit l bs hn hc hg (fun b hb op hop => Op.txLevel_inner op (htx b hb op hop)) hA hnp⟩
+
+/-- `covered_test_sound`: the executable coverage test that the driver evaluates on every block of the real chain
+(the `onpersist` answer is `ok uncovered` when it fails — never observed) implies the hypothesis `Covered` of
+`onpersist_total` / `chain_coherent_covered` on every ledger satisfying the accounting invariant. -/
+theorem covered_test_sound (nt : Nat) (e : Env) (l : Ledger) (b : Blk) (hi : Inv nt l)
+    (h : coveredB e l b.pidx b.txs = true) : Covered e l b := coveredB_sound e l b hi h
+
+-- non-vacuity: genesis (1000 GAS at account 0), a block in which account 0 pays fees 70 for a registration, an empty
+-- block: both covered
+example :
+    let s0 := step (initSt exEnv ((genesis exEnv 0 1000).getD {})) .postPersist
+    let b1 : Blk := ⟨0, [], [⟨0, 40, 30, none, none⟩], [.txBegin 0 [⟨0, 128, []⟩], .register 12, .txEnd false]⟩
+    let s1 := run s0 (b1.ops 1)
+    owedBy 0 b1.txs = 70 ∧ at0 id (step s0 (.block 1)).cur.gas 0 = 1000 ∧ primaryFee exEnv b1.txs = 30 ∧
+    coveredB exEnv (step s0 (.block 1)).cur b1.pidx b1.txs = true ∧
+    s1.panicked = false ∧ s1.env.index = 1 := by decide
+
+/-! ## witnesses -/
+
+/-- `witness_rule`: the model's witness decision (runtime.CheckHashedWitness + checkScope for the scopes None,
+CalledByEntry, CustomContracts, Global) accepts exactly the calling contract itself, or the first signer with the
+account when its scope is Global, or contains CalledByEntry and the call is made by the entry script, or contains
+CustomContracts and the called native contract is listed. -/
+theorem witness_rule (e : Env) (acc : Nat) (caller : Option Nat) (cur : Nat) :
+    witOf e acc caller cur = true ↔
+      (caller = some acc ∨ ∃ sg, e.signers.find? (fun sg => sg.acc == acc) = some sg ∧ caller ≠ some acc ∧
+        (sg.scopes = 128 ∨ (sg.scopes &&& 1 ≠ 0 ∧ caller = none) ∨ (sg.scopes &&& 16 ≠ 0 ∧ cur ∈ sg.allowed))) :=
+  witOf_iff e acc caller cur
+
+/-- `unwitnessed_call_no_effect`: a native call (transfer, vote, unregisterCandidate, lockDepositUntil, withdraw,
+setGasPerBlock, setRegisterPrice, blockAccount, unblockAccount) whose witness check fails leaves the ledger exactly
+as it was, or faults the transaction (the ledger of the transaction's start comes back): no balance, vote, deposit,
+candidate record, setting or blocked entry changes without the required witness. -/
+theorem unwitnessed_call_no_effect (s : St) (op : Op) (h : op.witness s = some false) :
+    (exec s op).cur = s.cur ∨ (exec s op).cur = s.snap := unwitnessed_no_effect s op h
+
+-- non-vacuity: account 3 signs with CalledByEntry: its direct transfer is witnessed, the same transfer made
+-- through contract 50 is not (and changes nothing); a fee-only signer (scope None) never witnesses
+example :
+    let e : Env := { notary := 90, neoC := 91, gasC := 92, csize := 1, vcount := 1, attrFee := 0,
+                     signers := [⟨3, 1, []⟩, ⟨4, 0, []⟩, ⟨5, 16, [92]⟩] }
+    witOf e 3 none 92 = true ∧ witOf e 3 (some 50) 92 = false ∧ witOf e 4 none 92 = false ∧
+    witOf e 5 (some 50) 92 = true ∧ witOf e 5 (some 50) 91 = false ∧ witOf e 50 (some 50) 92 = true := by decide
+example :
+    let e : Env := { notary := 90, neoC := 91, gasC := 92, csize := 1, vcount := 1, attrFee := 0, signers := [⟨3, 1, []⟩] }
+    let l : Ledger := { gas := [(3, 10)], gasSupply := 10 }
+    let s : St := initSt e l
+    (Op.transfer .gas 3 4 5 (some 50) .none .other).witness s = some false ∧
+    (exec s (.transfer .gas 3 4 5 (some 50) .none .other)).cur.gas = [(3, 10)] ∧
+    (exec s (.transfer .gas 3 4 5 none .none .other)).cur.gas = [(3, 5), (4, 5)] := by decide
 
 end NeoModel.Tokens
